@@ -78,12 +78,24 @@ def h_sort(ctx, k=2):
         ctx.prove(lex_le(ka, kb), 'sort:path-order')
 
 
+def h_session(ctx, n=3, kind='T1', side='long', exch='futures'):
+    """sessions: the minute monitor of C02 (path model) - orders resting at the start of the minute and reaction orders placed by hooks"""
+    from . import c02
+    c02.h_session(ctx, n=n, kind=kind, side=side, exch=exch)
+
+
 def setup(tier, seed):
-    import jesse.services.candle  # noqa
-    import jesse.modes.backtest_mode  # noqa
+    from ..engine import jstubs
+    from . import session as S
+    jstubs.install_core()
+    S.install_monitors()
     jobs = [Job('split_candle', h_split)]
     for k in ((2, 3) if tier == 'quick' else (2, 3, 4)):
         jobs.append(Job('sort_k%d' % k, h_sort, {'k': k}))
+    sess = [('T1', 'long', 'futures'), ('T1', 'short', 'futures')] if tier == 'quick' else \
+        [('T1', 'long', 'futures'), ('T1', 'short', 'futures'), ('T3', 'long', 'futures'), ('T4', 'short', 'futures'), ('T1', 'long', 'spot'), ('T8', 'long', 'futures')]
+    for kind, side, exch in sess:
+        jobs.append(Job('sess_3_%s_%s_%s' % (kind, side, exch), h_session, {'n': 3, 'kind': kind, 'side': side, 'exch': exch}, {'max_decisions': 4000}))
     spec = {
         'jobs': jobs,
         'budget_s': 600 if tier == 'quick' else 2400,
@@ -95,7 +107,7 @@ def setup(tier, seed):
         'outside': ['more than %d orders in one minute' % (3 if tier == 'quick' else 4), 'float rounding (values are reals)'],
         'stubs': ['Order stand-in with a .price attribute in the sort kernel harness (the function reads nothing else)'],
         'assumptions': ['floats modelled as reals', 'order prices inside the candle range (as _get_executing_orders guarantees)'],
-        'must_reach': ['split:meets-at-price', 'sort:path-order'],
+        'must_reach': ['split:meets-at-price', 'sort:path-order', 'C08:earliest-hit-fills-first', 'reaction-order-fill', 'minute-with-2-fills'],
     }
     return spec
 
@@ -105,13 +117,18 @@ def signature(v):
 
 
 def make_witness(v):
-    return {'harness': v['job'], 'label': v['label'], 'model': v['model'], 'bounds': v.get('bounds', {})}
+    return {'harness': v['job'], 'label': v['label'], 'model': v['model'], 'bounds': v.get('bounds', {}), 'info': v.get('info')}
 
 
 def replay(w):
     """concrete re-run on the real functions"""
     from jesse.services.candle import split_candle
     from jesse.modes.backtest_mode import _sort_execution_orders
+    if w['harness'].startswith('sess_'):
+        from ..engine.concrete import replay_harness
+        from . import session as S
+        S.install_monitors()
+        return replay_harness(h_session, w['bounds'], w['model'], w['label'])
     m = w['model']
     cnd = np.array([1000.0, m['k_o'], m['k_c'], m['k_h'], m['k_l'], 10.0])
     o, c, h, l = cnd[1], cnd[2], cnd[3], cnd[4]
